@@ -7,7 +7,12 @@ use crate::core::*;
 use lef21::LefLibrary;
 use serde_json::{json, Value};
 
-pub const FAMILIES: [&str; 7] = ["many-macros", "many-pins", "long-point-list", "long-comment-line", "beginext-words-on-one-line", "beginext-words-on-many-lines", "error-after-a-long-line"];
+pub const FAMILIES: [&str; 19] = [
+    "many-macros", "many-pins", "long-point-list", "long-comment-line", "beginext-words-on-one-line", "beginext-words-on-many-lines", "error-after-a-long-line",
+    // one family per repeated list of the grammar that the first seven do not stretch
+    "many-macro-properties", "many-pin-properties", "many-ports", "many-obs-layers", "many-rects", "many-layer-vias", "many-propdefs", "many-sites", "many-vias", "many-density-rects",
+    "many-antenna-attrs", "many-extensions",
+];
 
 pub fn sizes(t: Tier) -> [usize; 3] {
     t.pick([16, 32, 64], [64, 128, 256])
@@ -62,6 +67,81 @@ pub fn text(family: &str, kib: usize) -> String {
                 }
             }
             s.push_str("\nENDEXT\nMACRO after\n  SIZE 1 BY 2 ;\nEND after\n");
+        }
+        "many-macro-properties" | "many-pin-properties" | "many-ports" | "many-antenna-attrs" => {
+            s.push_str("MACRO big\n  SIZE 10 BY 20 ;\n");
+            if family != "many-macro-properties" {
+                s.push_str("  PIN a\n    DIRECTION INPUT ;\n");
+            }
+            let mut i = 0;
+            while s.len() < target {
+                match family {
+                    "many-macro-properties" => s.push_str(&format!("  PROPERTY prop{i} {i} ;\n")),
+                    "many-pin-properties" => s.push_str(&format!("    PROPERTY prop{i} \"v {i}\" ;\n")),
+                    "many-antenna-attrs" => s.push_str(&format!("    ANTENNAGATEAREA {}.5 LAYER met{} ;\n", i % 97, i % 5)),
+                    _ => s.push_str("    PORT\n      LAYER met1 ;\n        RECT 0.1 0.2 0.3 0.4 ;\n    END\n"),
+                }
+                i += 1;
+            }
+            if family != "many-macro-properties" {
+                if family != "many-ports" {
+                    s.push_str("    PORT\n      LAYER met1 ;\n        RECT 0.1 0.2 0.3 0.4 ;\n    END\n");
+                }
+                s.push_str("  END a\n");
+            }
+            s.push_str("END big\n");
+        }
+        "many-obs-layers" | "many-rects" | "many-layer-vias" => {
+            s.push_str("MACRO big\n  SIZE 10 BY 20 ;\n  OBS\n    LAYER met1 ;\n");
+            let mut i = 0;
+            while s.len() < target {
+                match family {
+                    "many-obs-layers" => s.push_str(&format!("    LAYER met{} ;\n      RECT 0.1 0.2 0.3 0.4 ;\n", i % 7)),
+                    "many-rects" => s.push_str(&format!("      RECT {}.1 0.2 {}.3 0.4 ;\n", i % 89, i % 89)),
+                    _ => s.push_str(&format!("      VIA {}.5 0.25 via12 ;\n", i % 89)),
+                }
+                i += 1;
+            }
+            s.push_str("  END\nEND big\n");
+        }
+        "many-propdefs" => {
+            s.push_str("PROPERTYDEFINITIONS\n");
+            let mut i = 0;
+            while s.len() < target {
+                s.push_str(&format!("  MACRO def{i} STRING ;\n  PIN num{i} REAL RANGE 0 10 ;\n"));
+                i += 1;
+            }
+            s.push_str("END PROPERTYDEFINITIONS\n");
+        }
+        "many-sites" => {
+            let mut i = 0;
+            while s.len() < target {
+                s.push_str(&format!("SITE s{i}\n  CLASS CORE ;\n  SYMMETRY X Y ;\n  SIZE 0.46 BY 2.72 ;\nEND s{i}\n"));
+                i += 1;
+            }
+        }
+        "many-vias" => {
+            let mut i = 0;
+            while s.len() < target {
+                s.push_str(&format!("VIA v{i} DEFAULT\n  LAYER met1 ;\n    RECT -0.1 -0.1 0.1 0.1 ;\n  LAYER via1 ;\n    RECT -0.05 -0.05 0.05 0.05 ;\nEND v{i}\n"));
+                i += 1;
+            }
+        }
+        "many-density-rects" => {
+            s.push_str("MACRO big\n  SIZE 10 BY 20 ;\n  DENSITY\n    LAYER met1 ;\n");
+            let mut i = 0;
+            while s.len() < target {
+                s.push_str(&format!("      RECT 0 0 {}.5 10 46.6 ;\n", i % 89));
+                i += 1;
+            }
+            s.push_str("  END\nEND big\n");
+        }
+        "many-extensions" => {
+            let mut i = 0;
+            while s.len() < target {
+                s.push_str(&format!("BEGINEXT \"tag{i}\"\n  CREATOR \"tool {i}\"\nENDEXT\n"));
+                i += 1;
+            }
         }
         "error-after-a-long-line" => {
             s.push_str("MACRO poly\n  SIZE 10 BY 20 ;\n  OBS\n    LAYER met1 ;\n      PATH");
@@ -271,7 +351,7 @@ impl Driver for C11Lin {
                 "linear-time evidence: for the text families {FAMILIES:?} at {} / {} / {} KiB the stand-alone reader (`l21mc lefread`) runs under `valgrind --tool=cachegrind --cache-sim=no`; the deterministic instruction counts must satisfy I(4N)-I(2N) <= 3 x (I(2N)-I(N)) (linear => 2, quadratic => 4; differences below 10 % of I(N) count as noise); counts echoed under alphabet_use as instructions:<family>:<size>. Each text also passes the in-process no-panic oracle. Stack depth: six deep-shaped valid texts ({} lines / statements: blank lines, comment lines, many macros, many pins, one huge line, BEGINEXT words) are read by the same stand-alone reader built in cargo's default dev profile under an 8 MiB stack; it must exit normally (the optimised harness build can hide recursion that the profile users test with does not).",
                 s[0], s[1], s[2], tier.pick(100_000, 400_000)
             ),
-            assumptions: vec!["time proportional to the input length is decided as 'terminates under the watchdog on every explored input' plus this bounded instruction-count test on seven shape families; evidence of linear behaviour on those families up to that size, not a complexity proof. If valgrind cannot be run the part is skipped and reported as cap 'cachegrind-unavailable'".into()],
+            assumptions: vec!["time proportional to the input length is decided as 'terminates under the watchdog on every explored input' plus this bounded instruction-count test on the listed shape families; evidence of linear behaviour on those families up to that size, not a complexity proof. If valgrind cannot be run the part is skipped and reported as cap 'cachegrind-unavailable'".into()],
             excluded: vec![],
             technique: "deterministic instruction counting of the real reader at N, 2N, 4N on a finite menu of input shape families".into(),
         }
